@@ -60,6 +60,23 @@ type Wallet struct {
 	scripts map[string]spendInfo
 }
 
+// WrongYScript is <04 | x of key i | y with one bit changed, same parity> OP_CHECKSIG: not a point of the curve.
+func (w *Wallet) WrongYScript(i int) []byte {
+	u := btc.PublicFromPrivate(w.priv[i%len(w.priv)], false)
+	k := append([]byte{}, u...)
+	k[64] ^= 2 // (same parity as the real y)
+	return append(append([]byte{0x41}, k...), 0xac)
+}
+
+// SignAsRealKey signs input idx of t with key i as if the output were locked to the REAL uncompressed key.
+func (w *Wallet) SignAsRealKey(i int, t *Tx, idx int) []byte {
+	u := btc.PublicFromPrivate(w.priv[i%len(w.priv)], false)
+	code := append(append([]byte{0x41}, u...), 0xac)
+	d := LegacyDigest(t, idx, code, SigAll)
+	r, s, _ := btc.EcdsaSign(w.priv[i%len(w.priv)], d[:])
+	return append(derSig(r, s), SigAll)
+}
+
 var curveN, _ = new(big.Int).SetString("FFFFFFFFFFFFFFFFFFFFFFFFFFFFFFFEBAAEDCE6AF48A03BBFD25E8CD0364141", 16)
 
 func NewWallet(seed uint64, n int) *Wallet {
